@@ -64,6 +64,10 @@ func (c *memberEventCoalescer) Flush(outCh chan<- Event) {
 		newEvent.Members = append(newEvent.Members, *cevent.Member)
 	}
 
+	// Start the next window empty, or members with no new event would be
+	// considered (and updates reported) again on every later flush
+	clear(c.latestEvents)
+
 	// Send out those events
 	for _, event := range events {
 		outCh <- *event
